@@ -10,24 +10,42 @@ macro_rules! jobj {
 pub mod common;
 pub mod models;
 
+#[cfg(feature = "rawfd")]
 mod mon_c01;
+#[cfg(feature = "rawfd")]
 mod mon_c02;
+#[cfg(feature = "rawfd")]
 mod mon_c03;
+#[cfg(feature = "rawfd")]
 mod mon_c04;
+#[cfg(feature = "rawfd")]
 mod mon_c05;
+#[cfg(feature = "rawfd")]
 mod mon_c06;
+#[cfg(feature = "rawfd")]
 mod mon_c07;
+#[cfg(feature = "rawfd")]
 mod mon_c08;
+#[cfg(feature = "rawfd")]
 mod mon_c09;
+#[cfg(feature = "rawfd")]
 mod mon_c10;
+#[cfg(feature = "rawfd")]
 mod mon_c11;
+#[cfg(feature = "rawfd")]
 mod mon_c12;
+#[cfg(feature = "rawfd")]
 mod mon_c13;
 mod mon_c14;
+#[cfg(feature = "rawfd")]
 mod mon_c15;
+#[cfg(feature = "rawfd")]
 mod mon_c17;
+#[cfg(feature = "rawfd")]
 mod mon_c18;
+#[cfg(feature = "rawfd")]
 mod mon_c19;
+#[cfg(feature = "rawfd")]
 mod mon_c20;
 
 use common::Args;
@@ -38,24 +56,42 @@ fn main() {
     common::out::init(&args.monitor);
     match args.monitor.as_str() {
         "noop" => {}
+        #[cfg(feature = "rawfd")]
         "c01" => mon_c01::run(&args),
+        #[cfg(feature = "rawfd")]
         "c02" => mon_c02::run(&args),
+        #[cfg(feature = "rawfd")]
         "c03" => mon_c03::run(&args),
+        #[cfg(feature = "rawfd")]
         "c04" => mon_c04::run(&args),
+        #[cfg(feature = "rawfd")]
         "c05" => mon_c05::run(&args),
+        #[cfg(feature = "rawfd")]
         "c06" => mon_c06::run(&args),
+        #[cfg(feature = "rawfd")]
         "c07" => mon_c07::run(&args),
+        #[cfg(feature = "rawfd")]
         "c08" => mon_c08::run(&args),
+        #[cfg(feature = "rawfd")]
         "c09" => mon_c09::run(&args),
+        #[cfg(feature = "rawfd")]
         "c10" => mon_c10::run(&args),
+        #[cfg(feature = "rawfd")]
         "c11" => mon_c11::run(&args),
+        #[cfg(feature = "rawfd")]
         "c12" => mon_c12::run(&args),
+        #[cfg(feature = "rawfd")]
         "c13" => mon_c13::run(&args),
         "c14" => mon_c14::run(&args),
+        #[cfg(feature = "rawfd")]
         "c15" => mon_c15::run(&args),
+        #[cfg(feature = "rawfd")]
         "c17" => mon_c17::run(&args),
+        #[cfg(feature = "rawfd")]
         "c18" => mon_c18::run(&args),
+        #[cfg(feature = "rawfd")]
         "c19" => mon_c19::run(&args),
+        #[cfg(feature = "rawfd")]
         "c20" => mon_c20::run(&args),
         other => {
             eprintln!("unknown monitor {:?}", other);
